@@ -98,6 +98,7 @@ type Hist struct {
 	Reopen   bool
 	Tail     bool
 	Initial  int  // bytes in the file before the reader is created
+	Aligned  bool `json:",omitempty"` // records are exactly 64 bytes long, so that a read buffer of 128 KiB ends exactly on a line end
 	Buf      int  `json:",omitempty"` // reader/inject: length of the slice handed to Read
 	PollUs   int  `json:",omitempty"` // reader: PollDelay in microseconds
 	Batch    int  `json:",omitempty"` // batcher: batch size
@@ -144,9 +145,10 @@ func (h Hist) mode() string {
 // position, so a duplicated, dropped or shifted range can never look like a
 // prefix of the expected stream.
 type stream struct {
-	inc int
-	buf []byte
-	k   int
+	inc     int
+	buf     []byte
+	k       int
+	aligned bool // every record is exactly 64 bytes
 }
 
 func (s *stream) upto(n int) {
@@ -154,6 +156,9 @@ func (s *stream) upto(n int) {
 		pad := (s.k * 7) % 23
 		if s.k%11 == 5 {
 			pad = 60 + s.k%37
+		}
+		if s.aligned {
+			pad = 63 - len(fmt.Sprintf("%d.%d", s.inc, s.k))
 		}
 		s.buf = append(s.buf, fmt.Sprintf("%d.%d", s.inc, s.k)...)
 		s.buf = append(s.buf, strings.Repeat("x", pad)...)
@@ -336,7 +341,7 @@ type stats struct {
 	nbrOps, nbrCreates, nbrRecreates          int
 	nbrRemoves                                [2]int
 	linesOut                                  int
-	link, linkOut, linkSame, cli              bool
+	link, linkOut, linkSame, cli, aligned     bool
 	ran                                       bool
 }
 
@@ -1021,7 +1026,7 @@ func (r *run) recreate(n int, byRename bool) error {
 	if n < 1 {
 		n = 1
 	}
-	str := &stream{inc: r.inc + 1}
+	str := &stream{inc: r.inc + 1, aligned: r.h.Aligned}
 	if r.h.Layer == "cli" {
 		n = str.linesLen(0, n) // whole lines
 	}
@@ -1104,7 +1109,8 @@ func (r *run) start() error {
 	r.dir = dir
 	r.path = filepath.Join(dir, "followed.log")
 	r.real = r.path
-	r.str = &stream{inc: 0}
+	r.str = &stream{inc: 0, aligned: r.h.Aligned}
+	r.st.aligned = r.h.Aligned
 	if r.h.Link {
 		// followed.log -> app-2026-09-30.log, in the same directory or in
 		// another one (there possibly under the name of the link), named
@@ -1548,6 +1554,7 @@ func check(c Case) error {
 			l(s.droppedEv > 0, "event-dropped(path-gone)")
 			l(s.maxBacklog > 4096, "backlog>4KiB")
 			l(s.bytes > 20000, "bytes>20k")
+			l(s.aligned, "initial-content-fills-the-read-buffer-exactly")
 			l(s.link, "followed-path-is-a-symlink")
 			l(s.link && strings.HasPrefix(s.mode, "notify"), "followed-path-is-a-symlink(notify)")
 			l(s.linkOut, "symlink-to-another-directory")
@@ -1607,6 +1614,12 @@ func genHist(t *rapid.T, layer string) Hist {
 		genEnv(t, &h)
 	}
 	h.Initial = pick(t, "initial", [2]int{0, 0}, [2]int{1, 40}, [2]int{100, 3000})
+	if layer != "inject" && !h.Tail && rapid.IntRange(0, 11).Draw(t, "aligned") == 0 {
+		// the existing content fills the 128 KiB read buffer of the line scanner exactly (or twice), ending on
+		// a line end; what is appended afterwards is read while those lines may still be held
+		h.Aligned = true
+		h.Initial = rapid.SampledFrom([]int{131072, 131072, 262144, 131072 - 64, 131072 + 64}).Draw(t, "alignedInitial")
+	}
 	maxOps := 22
 	switch layer {
 	case "reader":
